@@ -244,6 +244,9 @@ fn make_base(prof: &Profile, seed: u64, i: usize, real: Option<&mut dyn Write>) 
     let twin = prof.name == "clone" && rng.chance(1, 6);
     let kind = if scripted || displaced || twin || lastd || tdisp || lastm || tombfull { "sequential" } else { kind };
     let universe = if displaced || lastd || tdisp || lastm || tombfull { 4096 } else if scripted || twin { 1024 } else { universe };
+    // an Eq that lies while all hashes (or all tags) collide: every probe consults the lying Eq
+    let eq_only = matches!(prof.name, "broken-set" | "broken-table" | "broken-entry") && !displaced && rng.chance(1, 3);
+    let kind = if eq_only { *rng.pick(&["const0", "const0", "sametag", "samepos", "cluster"]) } else { kind };
     let kind = if prof.name == "churn-window" && rng.chance(2, 3) { "sequential" } else { kind };
     // table-churn: long probe chains (three and more groups) inside tables of 64-256 buckets, so that the
     // in-place rehash of a HashTable has to judge elements whose ideal group is several probe steps away
@@ -277,6 +280,7 @@ fn make_base(prof: &Profile, seed: u64, i: usize, real: Option<&mut dyn Write>) 
         "broken-hash" => pre.push(format!("env hash=mix:{}", rng.below(1 << 30))),
         // (the displaced-group construction starts lawful and switches to an unlawful hasher itself)
         "broken-entry" if displaced => {}
+        "broken-entry" | "broken-table" | "broken-set" if eq_only => pre.push(format!("env eq=mix:{}", rng.below(1 << 30))),
         "broken-entry" | "broken-table" | "broken-set" => {
             if rng.chance(1, 2) {
                 pre.push(format!("env hash=mix:{}", rng.below(1 << 30)))
